@@ -154,6 +154,27 @@ def prop(spec, rec):
     for s in spec["sessions"]:
         ev = h.evs[s["id"]]
         require(ev.energy_delivered <= ev.requested_energy * (1 + 1e-9) + 1e-12, "delivered_more_than_requested", lambda: "session %s requested %r kWh, delivered %r kWh" % (s["id"], ev.requested_energy, ev.energy_delivered))
+    if spec.get("reuse_algorithm"):
+        # the same algorithm object drives a second, fresh simulation of the scenario (without the
+        # mid-run updates): every schedule it emits there must be safe as well
+        spec2 = dict(spec, updates=[])
+        stats2 = {"ambiguous": 0, "estimator_active": 0, "binding": 0, "schedules": 0, "updates_applied": 0}
+        h2 = sc.build_sim(spec2, scheduler=sc.Wrapped(h.scheduler.inner))
+        h2.scheduler.post = make_post(spec2, h2, stats2)
+        np.random.normal = h2.feed
+        try:
+            with warnings.catch_warnings(record=True) as caught2:
+                warnings.simplefilter("always")
+                h2.sim.run()
+        finally:
+            np.random.normal = orig
+        bad2 = [str(w.message) for w in caught2 if "Invalid schedule" in str(w.message)]
+        require(not bad2, "infeasible_schedule_warning", lambda: "second simulation with the same algorithm object: %s" % bad2[0])
+        for s in spec["sessions"]:
+            ev = h2.evs[s["id"]]
+            require(ev.energy_delivered <= ev.requested_energy * (1 + 1e-9) + 1e-12, "delivered_more_than_requested", lambda: "second simulation: session %s requested %r kWh, delivered %r kWh" % (s["id"], ev.requested_energy, ev.energy_delivered))
+        stats["schedules"] += stats2["schedules"]
+        stats["ambiguous"] += stats2["ambiguous"]
     labels = sc.scenario_labels(spec)
     sch = spec["scheduler"]
     labels.add("sort_" + sch["sort"])
@@ -171,6 +192,8 @@ def prop(spec, rec):
         labels.add("has_finite_evse")
     if stats["updates_applied"]:
         labels.add("constraint_updated_mid_run")
+    if spec.get("reuse_algorithm"):
+        labels.add("algorithm_object_reused")
     rec.count("schedules", stats["schedules"])
     rec.count("ambiguous", stats["ambiguous"])
     rec.case(spec, labels, bool(stats["binding"] or stats["estimator_active"]))
@@ -186,6 +209,7 @@ def cases(draw):
             c = draw(st.sampled_from(spec["constraints"]))
             ups.append({"t": draw(st.integers(1, max(1, last - 1))), "name": c["name"], "limit": draw(st.sampled_from([8.0, 12.0, 20.0, 33.0, 50.0, 100.0]))})
         spec["updates"] = ups
+    spec["reuse_algorithm"] = draw(st.integers(0, 2)) == 0
     return spec
 
 
